@@ -5,6 +5,7 @@
 //! exit: 0 held / only known findings; 1 unlisted violation (VIOLATION line); 2 machinery failure.
 #![allow(clippy::too_many_arguments, clippy::type_complexity, clippy::needless_range_loop)]
 
+pub mod api;
 pub mod core;
 pub mod json;
 pub mod kv;
